@@ -18,7 +18,6 @@ import (
 type (
 	Locker = sync.Locker
 	Once   = sync.Once
-	Cond   = sync.Cond
 )
 
 // Map is sync.Map with every operation announced to the scheduler (each is atomic on its own, but a sequence such as
@@ -143,7 +142,46 @@ func (p *Pool) Put(x any) {
 	p.p.Put(x)
 }
 
-func NewCond(l Locker) *Cond { return sync.NewCond(l) }
+// Cond is sync.Cond on a shim Locker. Wait is performed for real (it unlocks and re-locks L through the shim, which
+// are ordinary scheduling points); the scheduler is told that the goroutine may park in it and takes the turn away when
+// it does (vsched.ExtBegin / ExtEnd). Signal and Broadcast are scheduling points.
+type Cond struct {
+	L    Locker
+	once sync.Once
+	c    *sync.Cond
+}
+
+func NewCond(l Locker) *Cond { return &Cond{L: l} }
+
+func (c *Cond) real() *sync.Cond {
+	c.once.Do(func() { c.c = sync.NewCond(c.L) })
+	return c.c
+}
+
+func (c *Cond) Wait() {
+	r := c.real()
+	t := vsched.ExtBegin(uintptr(unsafe.Pointer(c)))
+	r.Wait()
+	vsched.ExtEnd(t)
+}
+
+func (c *Cond) Signal() {
+	r := c.real()
+	vsched.Point(vsched.OpAtomic, uintptr(unsafe.Pointer(c)), 0)
+	r.Signal()
+}
+
+func (c *Cond) Broadcast() {
+	r := c.real()
+	vsched.Point(vsched.OpAtomic, uintptr(unsafe.Pointer(c)), 0)
+	r.Broadcast()
+}
+
+// SelectBegin / SelectEnd bracket a select statement with communication clauses (tools/prep puts SelectBegin in front
+// of the statement and SelectEnd at the start of every clause body): the select is performed for real, the scheduler
+// learns that the goroutine may park in it.
+func SelectBegin() *vsched.Thread { return vsched.ExtBegin(0) }
+func SelectEnd(t *vsched.Thread)  { vsched.ExtEnd(t) }
 
 func OnceFunc(f func()) func()                                 { return sync.OnceFunc(f) }
 func OnceValue[T any](f func() T) func() T                     { return sync.OnceValue(f) }
@@ -208,6 +246,9 @@ func othersParked() bool {
 		if first { // the caller itself is printed first
 			first = false
 			continue
+		}
+		if strings.Contains(blk, "vsync.SeqAcquire(") {
+			continue // waits like the caller does (it polls, so the runtime shows it as sleeping or runnable)
 		}
 		i, j := strings.IndexByte(blk, '['), strings.IndexByte(blk, ']')
 		if i < 0 || j < i {
